@@ -49,6 +49,11 @@ def base_case(rng, cell, mode):
         gen.cset(c, 'Wellfield O&M Cost', gen._round(rng.uniform(0.1, 3), 4))
         gen.cset(c, 'Surface Plant O&M Cost', gen._round(rng.uniform(0.1, 3), 4))
         gen.cset(c, 'Water Cost', gen._round(rng.uniform(0.01, 1), 4))
+        # a free item: a cost stream supplied as exactly 0 (0 x k = 0) is a supplied figure like any other
+        for zname in ('Exploration Capital Cost', 'Reservoir Stimulation Capital Cost', 'Field Gathering System Capital Cost',
+                      'Wellfield O&M Cost', 'Surface Plant O&M Cost', 'Water Cost'):
+            if rng.random() < 0.2:
+                gen.cset(c, zname, 0)
         if eu == 2 and pt == 5:
             # the chiller's capital share is only added when the plant cost is correlated; with a fixed plant cost only
             # its O&M remains a separate stream
